@@ -13,6 +13,9 @@
 //!     qfull    queue of size 1: request 1 in flight, request 2 queued, request 3 rejected; then destroy
 //!     badparam <extra> = null | zero | overflow | limit | nullitems | toomany | empty
 //!     states   client state listener until Connected, then destroy
+//!     notify   op = rh (ignored), <extra> = rtu | tcp, <n> = number of notifications to collect after enable:
+//!              rtu: a serial path that does not exist (every open fails), tcp: a refused port; small retry delays.
+//!              output: ffi:Ok/<first n states the C listener got, joined by '>'> rust:<the same for the Rust API listener>
 //!     reuse    op = wmc | wmr, <extra> = <k> or <k>+a: ONE rodbus_bit_list / rodbus_register_list object with n values is
 //!              passed to k successive write-multiple calls (each awaited); with +a one more value is added to the object
 //!              between two calls. The Rust API twin issues the same k calls with freshly built vectors.
@@ -550,6 +553,82 @@ fn scenario(rt: &tokio::runtime::Runtime, ffi_rt: &FfiRuntime, line: &str) -> St
             let e1 = slot_events(s1, Duration::from_secs(10));
             let e2 = slot_events(s2, Duration::from_secs(10));
             format!("ffi:{rc1}/{e1};{rc2}/{e2};{rc3}/{e3};pending-before-destroy={pending} rust:n/a")
+        }
+        "notify" => {
+            let want = n as usize;
+            extern "C" fn on_port(state: c_int, ctx: *mut c_void) {
+                let name = std::panic::catch_unwind(|| format!("{:?}", ffi::PortState::from(state))).unwrap_or_else(|_| format!("#{state}"));
+                unsafe { ctx_ref::<States>(ctx) }.lock().unwrap().seq.push(name);
+            }
+            struct RustPort(Arc<Mutex<Vec<String>>>);
+            impl Listener<PortState> for RustPort {
+                fn update(&mut self, value: PortState) -> MaybeAsync<()> {
+                    let name = format!("{value:?}");
+                    self.0.lock().unwrap().push(name.split('(').next().unwrap().to_string());
+                    MaybeAsync::ready(())
+                }
+            }
+            let closed = ClosedPort::new();
+            let path = "/dev/verif-no-such-serial-port";
+            let (fstates, sctx) = leak_ctx(States::default());
+            let mut ch: *mut rodbus_ffi::ClientChannel = std::ptr::null_mut();
+            let retry = ffi::RetryStrategy { min_delay: 20, max_delay: 40 };
+            let rc = unsafe {
+                if extra == "rtu" {
+                    let cpath = cstr(path);
+                    ffi::rodbus_client_channel_create_rtu(
+                        ffi_rt.0,
+                        cpath.as_ptr(),
+                        ffi::SerialPortSettingsFields {
+                            baud_rate: 9600,
+                            data_bits: ffi::DataBits::Eight,
+                            flow_control: ffi::FlowControl::None,
+                            parity: ffi::Parity::None,
+                            stop_bits: ffi::StopBits::One,
+                        }
+                        .into(),
+                        4,
+                        retry,
+                        decode_nothing(),
+                        ffi::PortStateListener { on_change: Some(on_port), on_destroy: Some(noop_destroy), ctx: sctx },
+                        &mut ch,
+                    )
+                } else {
+                    let host = cstr("127.0.0.1");
+                    ffi::rodbus_client_channel_create_tcp(
+                        ffi_rt.0,
+                        host.as_ptr(),
+                        closed.port,
+                        4,
+                        retry,
+                        decode_nothing(),
+                        ffi::ClientStateListener { on_change: Some(on_state), on_destroy: Some(noop_destroy), ctx: sctx },
+                        &mut ch,
+                    )
+                }
+            };
+            if rc != 0 {
+                return format!("ffi:{}/- rust:-", param_error_name(rc));
+            }
+            unsafe { ffi::rodbus_client_channel_enable(ch) };
+            wait_until(Duration::from_secs(3), || fstates.lock().unwrap().seq.len() >= want);
+            let f: Vec<String> = fstates.lock().unwrap().seq.iter().take(want).cloned().collect();
+            unsafe { ffi::rodbus_client_channel_destroy(ch) };
+            let rstates = Arc::new(Mutex::new(Vec::new()));
+            let rch = {
+                let _g = rt.enter();
+                let retry = rodbus::doubling_retry_strategy(Duration::from_millis(20), Duration::from_millis(40));
+                if extra == "rtu" {
+                    spawn_rtu_client_task(path, SerialSettings::default(), 4, retry, DecodeLevel::nothing(), Some(Box::new(RustPort(rstates.clone()))))
+                } else {
+                    spawn_tcp_client_task(HostAddr::ip(IpAddr::from([127, 0, 0, 1]), closed.port), 4, retry, DecodeLevel::nothing(), Some(Box::new(RustStates(rstates.clone()))))
+                }
+            };
+            let _ = rt.block_on(rch.enable());
+            wait_until(Duration::from_secs(3), || rstates.lock().unwrap().len() >= want);
+            let r: Vec<String> = rstates.lock().unwrap().iter().take(want).cloned().collect();
+            drop(rch);
+            format!("ffi:Ok/{} rust:{}", f.join(">"), r.join(">"))
         }
         "reuse" => {
             let (k, add) = match extra.split_once('+') {
